@@ -5,17 +5,20 @@ Local Open Scope string_scope.
 
 Definition c35_raw : list raw_site :=
   c35_cache_sites ++ c35_config_sites ++ c35_watcher_sites ++ c35_collect_sites ++
-  c35_transmit_sites ++ c35_peer_sites ++ c35_route_sites ++ c35_sample_sites.
+  c35_transmit_sites ++ c35_peer_sites ++ c35_route_sites ++ c35_sample_sites ++
+  c35_metrics_sites ++ c35_health_sites ++ c35_pubsub_sites ++ c35_sharder_sites ++ c35_generics_sites ++ c35_agent_sites.
 
 Definition c35_table : list site := map mk_site c35_raw.
 
 Definition c35_go : list (string * string * string) :=
   c35_cache_go ++ c35_config_go ++ c35_watcher_go ++ c35_collect_go ++
-  c35_transmit_go ++ c35_peer_go ++ c35_route_go ++ c35_sample_go.
+  c35_transmit_go ++ c35_peer_go ++ c35_route_go ++ c35_sample_go ++
+  c35_metrics_go ++ c35_health_go ++ c35_pubsub_go ++ c35_sharder_go ++ c35_generics_go ++ c35_agent_go.
 
 Definition c35_fields : list (string * string * string) :=
   c35_cache_fields ++ c35_config_fields ++ c35_watcher_fields ++ c35_collect_fields ++
-  c35_transmit_fields ++ c35_peer_fields ++ c35_route_fields ++ c35_sample_fields.
+  c35_transmit_fields ++ c35_peer_fields ++ c35_route_fields ++ c35_sample_fields ++
+  c35_metrics_fields ++ c35_health_fields ++ c35_pubsub_fields ++ c35_sharder_fields ++ c35_generics_fields ++ c35_agent_fields.
 
 (* HAND-LISTED happens-before facts (DESIGN §7 C35 "listed by hand for the few hand-off points").
    (struct, role, functions that may contain the go statement starting the role):
@@ -44,7 +47,8 @@ Definition c35_singleton : string -> string -> bool := singleton_of c35_singleto
 Definition c35_required_structs : list string :=
   ["cuckooSentCache"; "CuckooTraceChecker"; "fileConfig"; "ConfigWatcher"; "InMemCollector";
    "CollectorWorker"; "StressRelief"; "DirectTransmission"; "eventBatch"; "RedisPubsubPeers"; "Router";
-   "SamplerFactory"].
+   "SamplerFactory"; "MultiMetrics"; "Health"; "LocalPubSub"; "GoRedisPubSub"; "DeterministicSharder";
+   "SetWithTTL"; "MapWithTTL"; "usageTracker"; "environmentCache"].
 
 (* everything the instance theorem needs, as one boolean *)
 Definition c35_instance_ok : bool :=
